@@ -115,10 +115,12 @@ def gen_shape(rng, nmin=2, nmax=9, mix=None, pri="small", seq_rate=0.2, flags=Tr
         # some sinks are debug nodes and the whole case runs with RUN_DEBUG_NODES on (whole-DAG calls only): every node runs,
         # so every schedule clause applies to them as to any other node
         g_ = site_graph_of(nodes)
-        cand = [i for i in range(n) if g_.out_degree(i) == 0 and sum(1 for m in nodes if m["fn"] == nodes[i]["fn"]) == 1
-                and not fns[nodes[i]["fn"]].get("setup")]
-        for i in cand:
-            if rng.random() < 0.6:
+        dbg = set()
+        for i in reversed(range(n)):
+            # descendant-closed: sinks, and nodes all of whose consumers are debug nodes (debug chains)
+            ok = sum(1 for m in nodes if m["fn"] == nodes[i]["fn"]) == 1 and not fns[nodes[i]["fn"]].get("setup")
+            if ok and all(c in dbg for c in g_.successors(i)) and rng.random() < (0.6 if g_.out_degree(i) == 0 else 0.4):
+                dbg.add(i)
                 fns[nodes[i]["fn"]]["debug"] = True
                 spec["run_debug"] = True
     from tawazi.config import cfg as _tcfg
@@ -130,7 +132,8 @@ def gen_shape(rng, nmin=2, nmax=9, mix=None, pri="small", seq_rate=0.2, flags=Tr
         # dependencies, prefixed ids - every schedule / value / selection clause applies unchanged (C20: nesting == inlining)
         a0 = rng.randrange(n)
         b0 = min(n - 1, a0 + rng.randint(0, 2))
-        if S.nestable(spec, a0, b0):
+        ext_ok = all(not fns[nodes[q]["fn"]].get("debug") for i in range(a0, b0 + 1) for (q, _k) in S.deps_of(nodes[i]) if q < a0)
+        if ext_ok and S.nestable(spec, a0, b0):
             spec["nest"] = {"name": "nin", "first": a0, "last": b0, "mc": rng.randint(1, 2)}
             for fs in fns.values():
                 # (the argument stubs of the inner DAG have priority 0: with non-negative priorities a stub never ranks below the
